@@ -30,6 +30,9 @@ fn main() {
     std::panic::set_hook(Box::new(|info| {
         let t = std::thread::current();
         let name = t.name().unwrap_or("?").to_string();
+        if name.starts_with("case") && std::env::var("RVH_PANIC_MSG").is_ok() {
+            eprintln!("PANIC {}", info.to_string().replace('\n', " "));
+        }
         if !name.starts_with("case") {
             let msg = format!("{}@{}", name, info.to_string().replace(['\n', ' '], "_"));
             // a worker whose `DB::open` failed panics on the closed task channel
